@@ -35,7 +35,7 @@ func callResultEdgeDominates(fn *ssa.Function, name string, want bool, b *ssa.Ba
 			return
 		}
 		cal := call.Call.StaticCallee()
-		if cal == nil || cal.Name() != name {
+		if cal == nil || canonFnName(cal) != name {
 			return
 		}
 		succ := iff.Block().Succs[0]
@@ -53,6 +53,7 @@ func callResultEdgeDominates(fn *ssa.Function, name string, want bool, b *ssa.Ba
 
 func runC06(c *Ctx, r *Run) {
 	r.Rule("OB-E1", "the round is finalized only after receivedAll() and checkBroadcastHash() passed; a failed hash check aborts")
+	r.Rule("OB-E5", "the round consumes the very message the echo hash vouches for: one message per (round, sender, kind), the first copy wins")
 	r.Rule("OB-E2", "checkBroadcastHash compares the verification hash of every queued message of the round, in BOTH queues, with the hash of the previous round's broadcasts (bytes.Equal, full slices)")
 	r.Rule("OB-E3", "every outgoing message carries broadcastHashes[next round - 1]")
 	r.Rule("OB-E4", "the per-round broadcast hash is computed once, over msg.Hash() of every participant's stored broadcast in PartyIDs() order, only when all are present")
@@ -113,15 +114,15 @@ func runC06(c *Ctx, r *Run) {
 		r.Fail("OB-E1", "pkg/protocol.(*MultiHandler).finalize|calls-round-Finalize", c.Pos(fin.Pos()), "finalize advances the round", "no call of the round's Finalize found")
 	}
 	for _, fc := range finCalls {
-		ok1, _ := callResultEdgeDominates(fin, rcv.Name(), true, fc.Block())
-		ok2, iff := callResultEdgeDominates(fin, chk.Name(), true, fc.Block())
+		ok1, _ := callResultEdgeDominates(fin, canonFnName(rcv), true, fc.Block())
+		ok2, iff := callResultEdgeDominates(fin, canonFnName(chk), true, fc.Block())
 		r.Check("OB-E1", "pkg/protocol.(*MultiHandler).finalize|Finalize-after-receivedAll", c.Pos(fc.Pos()), ok1, "the round is finalized only when every expected message is stored", "the round's Finalize is not dominated by the passing edge of receivedAll()")
 		r.Check("OB-E1", "pkg/protocol.(*MultiHandler).finalize|Finalize-after-checkBroadcastHash", c.Pos(fc.Pos()), ok2, "the round is finalized only after all attached broadcast hashes matched the local view", "the round's Finalize is not dominated by the passing edge of checkBroadcastHash(): parties that received different broadcasts both proceed")
 		if iff != nil {
 			failBlk := iff.Block().Succs[1]
 			aborts := false
 			walkFrom(failBlk, 0, func(x ssa.Instruction) bool {
-				if cal := staticCallee(x); cal != nil && cal.Name() == "abort" {
+				if cal := staticCallee(x); cal != nil && canonFnName(cal) == "abort" {
 					aborts = true
 					return true
 				}
@@ -420,6 +421,9 @@ func runC06(c *Ctx, r *Run) {
 		r.Fail("RG-B", "broadcast-rounds", "protocols/", "at least 15 broadcast rounds", fmt.Sprintf("%d found", nB))
 	}
 
+	// ---- OB-E5: the echo hash is computed from the queue, which keeps the first copy; the round must consume that copy
+	checkFirstCopyWins(c, r, "OB-E5")
+	r.Require("OB-E5", 2)
 	r.Require("OB-E1", 3)
 	r.Require("OB-E2", 3)
 	r.Require("OB-E3", 1)
